@@ -13,6 +13,7 @@
 #include "llbuild/Core/BuildDB.h"
 
 #include "llbuild/Basic/BinaryCoding.h"
+#include "llbuild/Basic/Defer.h"
 #include "llbuild/Basic/PlatformUtility.h"
 #include "llbuild/Core/BuildEngine.h"
 
@@ -117,6 +118,14 @@ class SQLiteBuildDB : public BuildDB {
     // The db is opened lazily whenever an operation on it occurs. Thus if it is
     // already open, we don't need to do any further work.
     if (db) return true;
+
+    // A connection that could not be brought up completely is not kept: the
+    // next operation must start over (and check the version again) instead of
+    // finding a handle and taking the database for open.
+    bool opened = false;
+    llbuild_defer {
+      if (!opened) close();
+    };
 
     // Configure SQLite3 on first use.
     //
@@ -306,6 +315,7 @@ class SQLiteBuildDB : public BuildDB {
       -1, &getKeysWithResultStmt, nullptr);
     checkSQLiteResultOKReturnFalse(result);
 
+    opened = true;
     return true;
   }
 
